@@ -89,11 +89,21 @@ EmptyDay == [s |-> 0, e |-> 0]
 \* -------------------------------------------------------------- validation
 \* "ranges that are negative, inverted, longer than 24h or not whole minutes
 \*  are rejected"
+\*
+\* A day range is a range of wall-clock times of day OF ONE LOCAL DAY ("that
+\* day's [start, end) range"; "a full-day range covers every instant of that
+\* local day"): its bounds are times of day, 00:00 <= bound <= 24:00, counted
+\* from local midnight.  "Longer than 24h" is therefore read from local
+\* midnight: a range that is not negative is too long exactly when it reaches
+\* past 24:00 -- 23:00-25:00 is rejected although it spans two hours, because
+\* 25:00 is not a time of that day.  (PastDay subsumes end - start > 24h for
+\* start >= 0; TooLong is kept as the literal reading.)
 Negative(r) == r.s < 0 \/ r.e < 0                      \* floor form: bound < 0 iff its tick part < 0
 Inverted(r) == LexLess(End(r), Start(r))
 TooLong(r)  == LexLess(<<r.s + TPD, SN(r)>>, End(r))    \* end - start > 24 h
+PastDay(r)  == LexLess(<<TPD, 0>>, End(r)) \/ LexLess(<<TPD, 0>>, Start(r))   \* a bound after 24:00
 Ragged(r)   == r.s % TPM # 0 \/ r.e % TPM # 0 \/ SN(r) # 0 \/ EN(r) # 0
-MustReject(r) == Negative(r) \/ Inverted(r) \/ TooLong(r) \/ Ragged(r)
+MustReject(r) == Negative(r) \/ Inverted(r) \/ TooLong(r) \/ PastDay(r) \/ Ragged(r)
 
 \* What certainly is a schedule range: the empty range of an unset day and a
 \* non-empty whole-minute range inside one day.
@@ -102,9 +112,11 @@ WellFormed(r) ==
     \/ IsEmptyDay(r)
     \/ 0 <= r.s /\ LexLess(Start(r), End(r)) /\ LexLeq(End(r), <<TPD, 0>>) /\ ~Ragged(r)
 
-\* The statement is silent about the remaining ranges (start = end # 0, and
-\* ranges of at most 24h that reach past 24:00, e.g. 23:00-25:00): the set of
-\* admissible verdicts has both members there.
+\* The statement is really silent about one kind of range only: start = end
+\* at a whole minute other than 00:00 (e.g. 05:00-05:00, 24:00-24:00).  It is
+\* not inverted and holds no time of day -- "an empty range covers none" --
+\* but it is not the empty range of an unset day either.  Both verdicts are
+\* admissible there (if accepted it must survive the round trips unchanged).
 RangeVerdicts(r) ==
     IF MustReject(r) THEN {"reject"}
     ELSE IF WellFormed(r) THEN {"accept"}
